@@ -298,6 +298,9 @@ class SubdivLoop(LoopSpec):
                    lambda k: z3.If(k < i_old, g.u(k), z3.If(k == i_old, g.u(i_old), z3.If(k == i_old + 1, mid, g.u(k - 1)))),
                    lambda k: z3.If(k < i_old, g.v(k), z3.If(k == i_old, mid, z3.If(k == i_old + 1, g.v(i_old), g.v(k - 1)))))
         obs.append(('insertion-at-the-cursor', ins == i_old))
+        # progress (termination argument, DESIGN C10): a piece is split only when it is NOT flat -- together with the lemmas
+        # T1-T4 of check_termination_lemmas this bounds the width of every piece from below
+        obs.append(('only-a-non-flat-piece-is-split', z3.Not(flat_piece(st_old, i_old, flat))))
         obs.append(('cursor-stays-on-the-first-half', i_new == i_old))
         obs.append(('length-grows-by-one', st.n == st_old.n + 1))
         obs.append(('first-half==restriction-to-[u,mid]', inv_piece(st, g2, i_old)))
@@ -406,6 +409,61 @@ def check_subdivide(sess):
     sess.absorb(ctx, replay=replay10)
 
 
+def check_termination_lemmas(sess):
+    """Termination over the reals, reduced to a counting step (DESIGN C10).  Lemmas over the spec functions `restrict` and the flatness
+    predicate of the points_in_tolerance contract (both tied to the real code by check_split / check_pit_unbounded / the loop invariant):
+      T1  second differences of restrict(b,u,v) = (v-u)^2 * (convex combination of the second differences of b)
+      T2  hence bounded by (v-u)^2 * m when those of b are bounded by m
+      T3  distance to a segment <= distance to any point of the segment; the inner control points sit within sqrt(2)*m of the
+          points at 1/3 and 2/3 of the chord  =>  second differences below flat/sqrt(2) make the piece flat
+      T4  with omega in (0,1], 32*omega^4*m^2 <= flat^2: a piece of width < 2*omega is flat
+    With the loop obligation `only-a-non-flat-piece-is-split` every split piece has width >= 2*omega, so every piece ever present has
+    width >= omega; the pieces tile [0,1] per original piece (I1), so at most n0/omega pieces exist, each iteration either adds a piece or
+    advances the cursor: at most 2*n0/omega iterations.  The last (counting) step is NOT mechanised."""
+    b = z3.Reals('tb0 tb1 tb2 tb3')
+    u, v, m, flat, om = z3.Reals('tu tv tm tflat tomega')
+    D0, D1 = b[0] - 2 * b[1] + b[2], b[1] - 2 * b[2] + b[3]
+    r = restrict(b, u, v)
+    w2 = (v - u) * (v - u)
+    R0, R1 = r[0] - 2 * r[1] + r[2], r[1] - 2 * r[2] + r[3]
+    sess.add('termination/T1-second-differences-of-restrict', 'spec', 'lemma', [],
+             z3.And(R0 == w2 * ((1 - u) * D0 + u * D1), R1 == w2 * ((1 - v) * D0 + v * D1)))
+    ab = lambda e, bound: z3.And(e <= bound, -bound <= e)
+    dom = [u >= 0, u < v, v <= 1, m >= 0, ab(D0, m), ab(D1, m)]
+    c0, c1 = z3.Reals('tc0 tc1')
+    # staged: the convex combinations are bounded by m (linear in D0, D1 for fixed u: stated with the combination as a fresh symbol)
+    sess.add('termination/T2a-convex-combination-bounded', 'spec', 'lemma', dom + [c0 == (1 - u) * D0 + u * D1, c1 == (1 - v) * D0 + v * D1],
+             z3.And(ab(c0, m), ab(c1, m)))
+    w = z3.Real('tw2')
+    sess.add('termination/T2b-scaled-bound', 'spec', 'lemma', [w >= 0, m >= 0, ab(c0, m)], ab(w * c0, w * m))
+    sess.cover('termination/T2-domain', dom + [m > 0])
+    # T3: geometry
+    px, py, ax, ay, bx, by, s_ = z3.Reals('tpx tpy tax tay tbx tby ts')
+    qx, qy = ax + s_ * (bx - ax), ay + s_ * (by - ay)
+    sess.add('termination/T3a-segment-distance-is-minimal', 'spec', 'lemma', [s_ >= 0, s_ <= 1],
+             d2(px, py, ax, ay, bx, by) <= (px - qx) * (px - qx) + (py - qy) * (py - qy))
+    P = [z3.Reals(f'tx{k} ty{k}') for k in range(4)]
+    X, Y = [q[0] for q in P], [q[1] for q in P]
+    Dx0, Dx1 = X[0] - 2 * X[1] + X[2], X[1] - 2 * X[2] + X[3]
+    Dy0, Dy1 = Y[0] - 2 * Y[1] + Y[2], Y[1] - 2 * Y[2] + Y[3]
+    hy = [m >= 0, ab(Dx0, m), ab(Dx1, m), ab(Dy0, m), ab(Dy1, m)]
+    e1 = (X[1] - (2 * X[0] + X[3]) / 3, Y[1] - (2 * Y[0] + Y[3]) / 3)
+    e2 = (X[2] - (X[0] + 2 * X[3]) / 3, Y[2] - (Y[0] + 2 * Y[3]) / 3)
+    sess.add('termination/T3b-inner-control-points-near-the-chord', 'spec', 'lemma', hy,
+             z3.And(e1[0] * e1[0] + e1[1] * e1[1] <= 2 * m * m, e2[0] * e2[0] + e2[1] * e2[1] <= 2 * m * m))
+    # T3c: chain (instances of T3a at s = 1/3, 2/3 and T3b as hypotheses; the d2 terms generalised to fresh reals: only weakens)
+    dd1, dd2, ee1, ee2 = z3.Reals('td1 td2 te1 te2')
+    sess.add('termination/T3c-small-second-differences=>flat', 'spec', 'lemma',
+             [dd1 <= ee1, dd2 <= ee2, ee1 <= 2 * m * m, ee2 <= 2 * m * m, 2 * m * m < flat * flat], z3.And(dd1 < flat * flat, dd2 < flat * flat))
+    # T4: narrow pieces are flat.  bound of the piece's second differences: mm = w2*m (T2); claim 2*mm^2 < flat^2
+    sess.add('termination/T4-narrow-piece-is-flat', 'spec', 'lemma',
+             [u >= 0, u < v, v <= 1, m >= 0, flat > 0, om > 0, om <= 1, 32 * om * om * om * om * m * m <= flat * flat, v - u < 2 * om],
+             2 * (w2 * m) * (w2 * m) < flat * flat)
+    sess.cover('termination/T4-domain', [u >= 0, u < v, v <= 1, m > 0, flat > 0, om > 0, om <= 1, 32 * om * om * om * om * m * m <= flat * flat, v - u < 2 * om])
+    sess.canary('termination/width-threshold-is-sharp', [u >= 0, u < v, v <= 1, m >= 0, flat > 0, om > 0, om <= 1, 32 * om * om * om * om * m * m <= flat * flat, v - u < 3 * om],
+                2 * (w2 * m) * (w2 * m) < flat * flat)
+
+
 def build(sess):
     sess.level = 'other'
     sess.trust(
@@ -414,10 +472,11 @@ def build(sess):
         'floats are modelled as reals',
         'contract of points_in_tolerance (proved in C09) used modularly; bezmisc.beziersplitatt / tpoint read from site-packages, inline',
         'z3 nlsat (polynomial identities of the blossom / restriction)',
-        'TERMINATION NOT DECIDED: needs a real-analysis variant (each split quarters the second differences); not attempted',
+        'TERMINATION NOT DECIDED: lemmas T1-T4 and the loop obligation only-a-non-flat-piece-is-split are discharged (every piece ever present has width >= omega); the counting step (at most n0/omega pieces, hence at most 2*n0/omega iterations), the existence of the bound m over all original pieces, and binary64 are not mechanised',
     )
     check_split(sess)
     check_subdivide(sess)
+    check_termination_lemmas(sess)
     # the flatness predicate the invariant leans on is re-verified here against the contract used above (same obligations as C09):
     # a change inside points_in_tolerance is then a failed obligation of THIS property too, not only a bounded finding
     from .c09 import check_pit_unbounded
@@ -430,8 +489,8 @@ def build(sess):
         sess.native_violations.append({'obligation': 'C10/bounded/terminates-and-agrees-with-the-exact-oracle', 'native_input': r.get('input'),
                                        'observed': r.get('observed'), 'expected': r.get('expected'), 'summary': f"{r.get('input')} -> {r.get('observed')}"})
     sess.explanation = ('PROVED (partial correctness, node lists of any length, any subdivision depth): loop invariant I1-I4 + midpoint '
-                        'splits, established / preserved / used at return: every piece is the restriction of its original piece to '
-                        '[u,v], pieces tile, every piece flat, outer handles untouched. NOT DECIDED: termination. BOUNDED (labelled): '
+                        'splits (and: only a non-flat piece is split), established / preserved / used at return: every piece is the restriction of its original piece to '
+                        '[u,v], pieces tile, every piece flat, outer handles untouched. Termination lemmas T1-T4 discharged. NOT DECIDED: termination (counting step, binary64). BOUNDED (labelled): '
                         'termination and the end-to-end result on seeded curves against an exact-rational oracle.')
 
 
